@@ -350,6 +350,7 @@ class Expander:
                         if isinstance(s, ast.FunctionDef):
                             self._do_function(modname, node, s)
             sink_selected_receivers(m.tree)
+            loops_to_comprehensions(m.tree)
             for node in ast.walk(m.tree):
                 for child in ast.iter_child_nodes(node):
                     child._parent = node
@@ -407,6 +408,69 @@ def sink_selected_receivers(tree: ast.AST):
                         ast.fix_missing_locations(new_if)
                         continue
                     i += 1
+
+
+def loops_to_comprehensions(tree: ast.AST):
+    """`d = {}` directly followed by `for T in IT:` whose body is only filters (guard clauses `if c: continue`, nested `if c:`
+    without else) around ONE `d[K] = V` - or `l = []` ... `l.append(V)` - is the comprehension `{K: V for T in IT if ...}`
+    (same iteration order, same short-circuit order of the tests, later keys overwrite earlier ones in both)."""
+    def flatten(body, conds):
+        if not body:
+            return None
+        first, rest = body[0], body[1:]
+        if isinstance(first, ast.If) and not first.orelse and len(first.body) == 1 and isinstance(first.body[0], ast.Continue):
+            return flatten(rest, conds + [ast.UnaryOp(op=ast.Not(), operand=first.test)])
+        if isinstance(first, ast.If) and not first.orelse and not rest:
+            return flatten(first.body, conds + [first.test])
+        if not rest and isinstance(first, (ast.Assign, ast.Expr)):
+            return conds, first
+        return None
+    for fn in [n for n in ast.walk(tree) if isinstance(n, ast.FunctionDef)]:
+        for owner in ast.walk(fn):
+            for field in ("body", "orelse", "finalbody"):
+                blk = getattr(owner, field, None)
+                if not (isinstance(blk, list) and blk and isinstance(blk[0], ast.stmt)):
+                    continue
+                i = 0
+                while i + 1 < len(blk):
+                    init, loop = blk[i], blk[i + 1]
+                    i += 1
+                    if not (isinstance(init, ast.Assign) and len(init.targets) == 1 and isinstance(init.targets[0], ast.Name) and isinstance(loop, ast.For) and not loop.orelse):
+                        continue
+                    d = init.targets[0].id
+                    v = init.value
+                    is_dict = (isinstance(v, ast.Dict) and not v.keys) or (isinstance(v, ast.Call) and isinstance(v.func, ast.Name) and v.func.id == "dict" and not v.args and not v.keywords)
+                    is_list = (isinstance(v, ast.List) and not v.elts) or (isinstance(v, ast.Call) and isinstance(v.func, ast.Name) and v.func.id == "list" and not v.args and not v.keywords)
+                    if not (is_dict or is_list):
+                        continue
+                    fl = flatten(loop.body, [])
+                    if fl is None:
+                        continue
+                    conds, store = fl
+                    if any(isinstance(x, ast.Name) and x.id == d for c in conds for x in ast.walk(c)) or any(isinstance(x, ast.Name) and x.id == d for x in ast.walk(loop.iter)):
+                        continue
+                    comp = None
+                    if is_dict and isinstance(store, ast.Assign) and len(store.targets) == 1 and isinstance(store.targets[0], ast.Subscript) and isinstance(store.targets[0].value, ast.Name) \
+                            and store.targets[0].value.id == d and not any(isinstance(x, ast.Name) and x.id == d for x in ast.walk(store.value)) and not any(isinstance(x, ast.Name) and x.id == d for x in ast.walk(store.targets[0].slice)):
+                        comp = ast.DictComp(key=store.targets[0].slice, value=store.value, generators=[ast.comprehension(target=loop.target, iter=loop.iter, ifs=conds, is_async=0)])
+                    elif is_list and isinstance(store, ast.Expr) and isinstance(store.value, ast.Call) and isinstance(store.value.func, ast.Attribute) and store.value.func.attr == "append" \
+                            and isinstance(store.value.func.value, ast.Name) and store.value.func.value.id == d and len(store.value.args) == 1 and not store.value.keywords \
+                            and not any(isinstance(x, ast.Name) and x.id == d for x in ast.walk(store.value.args[0])):
+                        comp = ast.ListComp(elt=store.value.args[0], generators=[ast.comprehension(target=loop.target, iter=loop.iter, ifs=conds, is_async=0)])
+                    if comp is None:
+                        continue
+                    # the loop's variables must not be used after the loop (a comprehension does not leak them)
+                    bound = {x.id for x in ast.walk(loop.target) if isinstance(x, ast.Name)}
+                    later = [x for st in blk[i + 1:] for x in ast.walk(st) if isinstance(x, ast.Name) and x.id in bound and isinstance(x.ctx, ast.Load)]
+                    if later:
+                        continue
+                    for x in ast.walk(comp.generators[0].target):
+                        if isinstance(x, ast.Name):
+                            x.ctx = ast.Store()
+                    new = ast.copy_location(ast.Assign(targets=[ast.Name(id=d, ctx=ast.Store())], value=comp), init)
+                    blk[i - 1:i + 1] = [new]
+                    ast.fix_missing_locations(new)
+                    i -= 1
 
 
 def _replace_node(root: ast.AST, old: ast.AST, new: ast.AST):
